@@ -7,7 +7,7 @@ from __future__ import annotations
 
 import itertools
 
-KINDS = ("opt", "list", "dict", "vtuple", "member")
+KINDS = ("opt", "list", "dict", "vtuple", "member", "bare")
 
 
 def _ann(kind, tgt, future, hname=None):
@@ -23,6 +23,9 @@ def _ann(kind, tgt, future, hname=None):
     if kind == "member":
         hq = hname if future else f'"{hname}"'
         return hq, f"dataclasses.field(default_factory=lambda: {hname}())"
+    if kind == "bare":
+        # a plain class-typed field (always given a value; the default only keeps the field order legal)
+        return q, "None"
     raise KeyError(kind)
 
 
@@ -48,21 +51,32 @@ class Topo:
     def kinds(self):
         return sorted({k for ls in self.links for _, k in ls})
 
-    def source(self, future, nested=False):
-        """nested=True: every class is defined inside `class Outer:` and referred to as Outer.C<i>."""
+    def source(self, future, nested=False, flavour="dc"):
+        """nested=True: every class is defined inside `class Outer:` and referred to as Outer.C<i>.
+        flavour: dc (dataclass) | td (TypedDict, total=False) | nt (typing.NamedTuple)."""
         lines = ["from __future__ import annotations"] if future else []
         lines += ["import dataclasses, typing", ""]
         helpers = []
         classes = []
         q = "Outer." if nested else ""
         for i, ls in enumerate(self.links):
-            body = [f"@dataclasses.dataclass", f"class C{i}:", "    v: int = 0"]
+            if flavour == "td":
+                body = [f"class C{i}(typing.TypedDict, total=False):", "    v: int"]
+            elif flavour == "nt":
+                body = [f"class C{i}(typing.NamedTuple):", "    v: int = 0"]
+            else:
+                body = [f"@dataclasses.dataclass", f"class C{i}:", "    v: int = 0"]
             for j, (t, k) in enumerate(ls):
                 hname = f"H{i}_{j}"
                 a, d = _ann(k, f"{q}C{t}", future, f"{q}{hname}")
                 if k == "member" and nested:
                     d = f"dataclasses.field(default_factory=lambda: Outer.{hname}())"
-                body.append(f"    l{j}: {a} = {d}")
+                if flavour == "td":
+                    body.append(f"    l{j}: {a}")
+                elif flavour == "nt":
+                    body.append(f"    l{j}: {a} = None")
+                else:
+                    body.append(f"    l{j}: {a} = {d}")
                 if k == "member":
                     tq = f"{q}C{t} | None" if future else f'"{q}C{t} | None"'
                     helpers.append(f"@dataclasses.dataclass\nclass {hname}:\n    x: {tq} = None\n")
@@ -78,6 +92,10 @@ class Topo:
         for j, (t, k) in enumerate(self.links[node]):
             go = level < d and (j == 0 or level < full)
             child = self.wire(t, d, full, level + 1, ints) if go else None
+            if k == "bare":
+                # a bare link always carries a value; at the horizon it is a terminal node (its own links stopped)
+                w[f"l{j}"] = child if go else self.wire(t, 0, full, 10**6, ints)
+                continue
             if k == "opt":
                 w[f"l{j}"] = child
             elif k == "list":
@@ -90,11 +108,14 @@ class Topo:
                 w[f"l{j}"] = {"x": child}
         return w
 
-    def expected(self, ns, node, d, full=2, level=0):
+    def expected(self, ns, node, d, full=2, level=0, flavour="dc"):
         kw = {"v": 7}
         for j, (t, k) in enumerate(self.links[node]):
             go = level < d and (j == 0 or level < full)
-            child = self.expected(ns, t, d, full, level + 1) if go else None
+            child = self.expected(ns, t, d, full, level + 1, flavour) if go else None
+            if k == "bare":
+                kw[f"l{j}"] = child if go else self.expected(ns, t, 0, full, 10**6, flavour)
+                continue
             if k == "opt":
                 kw[f"l{j}"] = child
             elif k == "list":
@@ -105,7 +126,7 @@ class Topo:
                 kw[f"l{j}"] = (child,) if go else ()
             elif k == "member":
                 kw[f"l{j}"] = ns[f"H{node}_{j}"](x=child)
-        return ns[f"C{node}"](**kw)
+        return dict(kw) if flavour == "td" else ns[f"C{node}"](**kw)
 
 
 ROOT_FORMS = ("cls", "list", "dict", "vtuple", "opt")
@@ -168,6 +189,9 @@ def topologies(n, *, cyclic_only=True, max_links=None):
         if not _reachable(n, combo):
             continue
         if cyclic_only and not _has_cycle(n, combo):
+            continue
+        bare_sources = {i for i, ls in enumerate(combo) if any(k == "bare" for _, k in ls)}
+        if any(t in bare_sources for ls in combo for t, k in ls if k == "bare"):
             continue
         # identify relabelings of the non-root nodes
         best = None
